@@ -311,6 +311,22 @@ example : ConjOk exN (0, 0) ∧ ¬ ConjOk exN (1, 0) := by
   · show ¬ conjTGrid 3 2 (exOrig .lam) (1, 0) = true
     decide +kernel
 
+/-- the hypotheses of `C09_neutral_identity` and `C09_kept_survives` are satisfiable, for every class -/
+example (cl : ClassSpec) (hcl : cl ∈ classes) :=
+  C09_neutral_identity cl hcl false (by simp [flagOk]) exN exN_neutral
+example (cl : ClassSpec) (hcl : cl ∈ classes) :=
+  C09_kept_survives cl hcl true false (by simp [flagOk]) exP (0, 0) ((exKept_iff true (0, 0)).mpr (by decide +kernel))
+
+/-- the hypotheses of the `cexec` step lemmas are satisfiable: an environment holding a list-of-rows damping
+    table under `"Xis"`, an eigenvalue table fitting the grid under `"Lambds"` -/
+example : ∃ e : CEnv (Nat × Nat) Cell,
+    e "Xis" = some (CVal.tbl (tblOf .real [[some (1/50), none], [some (1/5), some 0]])) ∧
+    e "Lambds" = some (CVal.tbl (tblOf cplxOfC [[some (-1, 10), none], [some (-1, -10), some (-3, 31)]])) ∧
+    Fits 2 2 ([[some (-1, 10), none], [some (-1, -10), some (-3, 31)]] : T HcFn.C) :=
+  ⟨fun x => if x = "Xis" then some (CVal.tbl (tblOf .real [[some (1/50), none], [some (1/5), some 0]]))
+      else some (CVal.tbl (tblOf cplxOfC [[some (-1, 10), none], [some (-1, -10), some (-3, 31)]])),
+    rfl, rfl, by decide, by decide⟩
+
 end example_
 
 end PV.C09Stored
